@@ -570,7 +570,7 @@ func (rl *Shell) shellTransposeWords() {
 
 	// We might be on the first word of the line,
 	// in which case we don't do anything.
-	if wepos > tbpos {
+	if wepos > tbpos || wbpos < 0 || wepos < wbpos || tepos < tbpos || tepos > rl.line.Len() {
 		rl.cursor.Set(startPos)
 		return
 	}
